@@ -530,7 +530,7 @@ func (g *gen) next() (string, M) {
 		if d.Cfg.Dyn && g.rng.Intn(3) == 0 {
 			host = "B"
 		}
-		return "EndSession", M{"hint": hint, "client": g.pick("", "", "cw", "cx", "cj"), "uri": g.pick("", "plcw", "plcx", "plcj", "evil", "plcwG", "ucwG"), "state": g.pick("", "ls1", "l s+2&="), "host": host}
+		return "EndSession", M{"hint": hint, "client": g.pick("", "", "cw", "cx", "cj"), "uri": g.pick("", "plcw", "plcx", "plcj", "evil", "plcwG", "ucwG", "plcxNear"), "state": g.pick("", "ls1", "l s+2&="), "host": host}
 	}
 }
 
